@@ -61,6 +61,10 @@ GRAMMARS = {
     "pat_a": "start = /\\d+ \\d+/ $ ;\n",
     "pat_b": "start = /\\d+  \\d+/ $ ;\n",
     "kw_b": "@@keyword :: then else\nstart = name $ ;\n@name\nname = /[a-z]+/ ;\n",  # same rules as 'kw', other keywords
+    # names may be upper case: whether 'IF' is reserved depends on the case rules of the call (and of nothing else)
+    "kw_c": "@@keyword :: if then\nstart = name $ ;\n@name\nname = /[a-zA-Z]+/ ;\n",
+    # many distinct patterns: fills (and overflows) whatever process-wide cache of compiled patterns there is
+    "manypat": "start = " + " | ".join(f"p{i}" for i in range(72)) + " ;\n" + "".join(f"p{i} = /x{i}y/ ;\n" for i in range(72)),
 }
 INPUTS = {
     "ref": ["12 ab", "12", "ab", "7 x", ""],
@@ -91,8 +95,10 @@ INPUTS = {
     "pat_a": ["12 34", "12  34"],
     "pat_b": ["12 34", "12  34"],
     "kw_b": ["x", "if", "then", "else"],
+    "kw_c": ["x", "if", "IF", "If", "THEN", "iff"],
+    "manypat": ["zzz", "x5y", "x71y"],
 }
-FAMILIES = [["typed", "typed_b", "typed_c", "params", "typed_d"], ["kw", "icase", "kw_b"], ["ref", "two", "choice", "ws"], ["lrec", "cut", "over", "named", "const"],
+FAMILIES = [["typed", "typed_b", "typed_c", "params", "typed_d"], ["kw", "icase", "kw_b", "kw_c"], ["ref", "two", "choice", "ws"], ["lrec", "cut", "over", "named", "const"],
             ["nums", "nums_b"], ["tok_a", "tok_b", "pat_a", "pat_b"], ["cn_a", "cn_b", "cn_c", "cn_d", "const"]]
 FAMILY_RULES = {"nums": ["start", "value", "integer", "real", "flag"], "tok_a": ["start"], "typed": ["start", "num", "word", "nosuch"], "kw": ["start", "name", "stmt"], "ref": ["start", "num", "word", "first", "second", "x", "nosuch"],
                 "lrec": ["start", "e", "n", "a", "b", "num"]}
@@ -114,7 +120,7 @@ SETTINGS_POOL = [
     {"ignorecase": True, "parseinfo": True}, {"namechars": "_"}, {"trace": True, "colorize": False}, {"memoization": False, "parseinfo": True},
     {"source": "input.txt"}, {"source": "input.txt", "ignorecase": True}, {"source": "input.txt", "whitespace": ""}, {"source": "other.txt"},
 ]
-CALL_SETTINGS = [{"parseinfo": True}, {"ignorecase": True}, {"nameguard": False}, {"whitespace": ""}, {"source": "input.txt"},
+CALL_SETTINGS = [{"parseinfo": True}, {"ignorecase": True}, {"ignorecase": True}, {"nameguard": False}, {"whitespace": ""}, {"source": "input.txt"}, {"keywords": ["x", "iff"]},
                  {"source": "input.txt", "ignorecase": True}, {"source": "input.txt", "whitespace": ""}, {"source": "input.txt", "nameguard": False}]
 NAMES = [None, None, "A", "B", "Test"]
 SEM_HANDLES = {"S1": "tag", "S2": "eq", "S3": "num"}      # a shared semantics object is always of the same kind
@@ -1039,7 +1045,7 @@ def gen_call(rng, handles, models_only=False, allow_fault=True, focus=None):
     return op
 
 
-GOOD_INPUT = {"cn_a": "7", "cn_b": "x", "cn_c": "x", "cn_d": "7 ab", "nums": "1", "nums_b": "1", "tok_a": "end if", "tok_b": "end  if", "pat_a": "12 34", "pat_b": "12  34", "ref": "12 ab", "choice": "a", "typed": "1", "typed_b": "1", "typed_c": "1 a", "typed_d": "ab", "params": "1", "kw": "x", "kw_b": "x",
+GOOD_INPUT = {"kw_c": "IF", "manypat": "x71y", "cn_a": "7", "cn_b": "x", "cn_c": "x", "cn_d": "7 ab", "nums": "1", "nums_b": "1", "tok_a": "end if", "tok_b": "end  if", "pat_a": "12 34", "pat_b": "12  34", "ref": "12 ab", "choice": "a", "typed": "1", "typed_b": "1", "typed_c": "1 a", "typed_d": "ab", "params": "1", "kw": "x", "kw_b": "x",
               "icase": "x", "ws": "ab cd", "const": "a", "named": "1", "over": "(1)", "lrec": "1", "cut": "x y", "two": "ab"}
 
 
@@ -1136,11 +1142,11 @@ def gen_pair_history(rng, handles):
             c["out"] = f"p{_HCTR[0]}"
             handles[c["out"]] = c
             seq.append(c)
-            if rng.random() < 0.35:
+            if rng.random() < 0.5:
                 # the fallback pattern: the same text on the same object again, with other settings
                 rtext = rng.choice(INPUTS[g])
                 src = rng.choice([{}, {"source": "input.txt"}, {"source": "input.txt"}])
-                for extra in rng.sample([{}, {"ignorecase": True}, {"whitespace": ""}, {"nameguard": False}, {"parseinfo": True}, {"whitespace": "[ ]+"}], k=rng.choice([2, 3])):
+                for extra in rng.sample([{}, {}, {"ignorecase": True}, {"whitespace": ""}, {"nameguard": False}, {"parseinfo": True}, {"whitespace": "[ ]+"}, {"keywords": ["x", "iff"]}], k=rng.choice([2, 3, 4])):
                     seq.append({"op": "pparse", "h": c["out"], "g": g, "text": rtext, "settings": {**src, **extra}})
             else:
                 for _ in range(rng.choice([1, 2, 2])):
@@ -1269,6 +1275,12 @@ def gen_spec(seed: int, mode: str | None = None) -> dict:
     if rng.random() < 0.5:  # warm the lazily initialised state, or leave it cold
         h = rng.choice(list(handles))
         prefix.append({"op": "mparse", "h": h, "g": handles[h]["g"], "text": rng.choice(INPUTS[handles[h]["g"]])})
+    warmed = rng.random() < 0.3
+    if warmed:
+        # a process that has been running for a while: its process-wide caches are full, and what the shared models need
+        # has been pushed out again
+        prefix.append({"op": "compile", "g": "manypat", "name": None, "asmodel": False, "sem": "none", "settings": {}, "out": "warm"})
+        prefix.append({"op": "mparse", "h": "warm", "g": "manypat", "text": "zzz"})
     threads = []
     # several threads that each obtain "their" model lazily, with the very same compile() call, while the cache is cold
     same = None
@@ -1313,7 +1325,7 @@ def gen_spec(seed: int, mode: str | None = None) -> dict:
     # staggered arrival: a thread may start later — after so many lines executed by the others, or ("hot") at an instant
     # when another thread is inside one of the functions that touch shared state (check-then-act windows are a few lines wide)
     arrive = [0] * len(threads)
-    staggered = rng.random() < (0.85 if same is not None else 0.3)
+    staggered = rng.random() < (0.85 if (same is not None or warmed) else 0.3)
     if staggered:
         late = rng.sample(range(len(threads)), k=rng.randrange(1, len(threads)))
         for ti in late:
@@ -1321,6 +1333,8 @@ def gen_spec(seed: int, mode: str | None = None) -> dict:
                 # arrives when another thread executes its n-th line inside a function of that name
                 fn = "compile" if (same is not None and rng.random() < 0.85) else rng.choice(sorted(HOT))
                 arrive[ti] = {"fn": fn, "nth": rng.randrange(1, 48) if rng.random() < 0.7 else int(10 ** rng.uniform(0, 2.5))}
+                if warmed and same is None and rng.random() < 0.7:
+                    arrive[ti] = {"fn": rng.choice(CACHE_FUNCS), "nth": rng.randrange(1, 20)}
             else:
                 arrive[ti] = int(10 ** rng.uniform(1, 4.5))
     return {"property": PROP, "mode": "threads", "prefix": prefix, "threads": threads, "arrive": arrive,
@@ -1360,7 +1374,8 @@ def diff_keys(a, b, prefix=""):
 
 HOT = {"optimized", "ruleinfo", "lookahead", "find_cached_semantic_action", "bind", "synthesize", "_get_constructor",
        "_register_constructor", "compile", "initialize", "cached_re_compile", "set_context", "_reset", "bound", "__get__",
-       "_instanceof", "_default", "link", "_calc_lookahead_sets", "find_rule", "find_semantic_action"}
+       "_instanceof", "_default", "link", "_calc_lookahead_sets", "find_rule", "find_semantic_action", "_enforce_limit", "__setitem__", "_scanre"}
+CACHE_FUNCS = ["_enforce_limit", "__setitem__", "cached_re_compile"]
 
 
 def exec_threads(spec, decider):
